@@ -37,7 +37,7 @@ theorem UpdateFront.walkable {cfg : ZoneCfg} {front : Bytes} {hd : Hdr}
 
 /--
 **A correctly signed, timely update is applied.**  The request is `front` followed by the TSIG
-RR built from (`n`, `d`); the zone is a sqlite store with updates enabled; `n` is (up to case) the name of the first
+RR built from (`n`, `d`); the zone is a Primary sqlite store with updates enabled; `n` is (up to case) the name of the first
 configured key `sg` with that name, `d` names `sg`'s algorithm, carries a full-length MAC that
 `sg`'s oracle accepts for the to-be-signed bytes, and `time ∸ fudge ≤ now < time + fudge`.  Then
 the server hands the
@@ -46,7 +46,7 @@ update section to RFC 2136 processing and MACs its reply with the same key, erro
 theorem signed_update_applies {cfg : ZoneCfg} {front : Bytes} {hd : Hdr}
     (U : UpdateFront cfg front hd)
     (sg : Signer) (n : Name) (d : TsigData) (E : Emittable n d) (now : Nat)
-    (hau : cfg.allowUpdate = true) (hsq : cfg.inMemory = false)
+    (hau : cfg.allowUpdate = true) (hsq : cfg.inMemory = false) (hzt : cfg.zoneType = 0)
     (hfind : cfg.signers.find? (fun s => Name.eq s.name { n with fqdn := true }) = some sg)
     (hname : Name.eq { n with fqdn := true } sg.name = true)
     (halg : algIs d.algName sg.alg = true)
@@ -89,7 +89,8 @@ theorem signed_update_applies {cfg : ZoneCfg} {front : Bytes} {hd : Hdr}
   rw [hdisp]
   simp only
   unfold authorizeUpdate
-  simp only [hsq, hau, Bool.true_eq_false, Bool.false_eq_true, ↓reduceIte]
+  simp only [hzt, hsq, hau, Bool.true_eq_false, Bool.false_eq_true, ↓reduceIte, Nat.zero_ne_one, ne_eq,
+    not_true_eq_false]
   unfold authorizedTsig
   have hf' : cfg.signers.find? (fun s => Name.eq s.name (sigRecAt front n d).name) = some sg := hfind
   rw [hf']
